@@ -45,6 +45,9 @@ def gen_cases(c, rng, shard):
         yield "walk", a
     for a in harness.flag_cases(c, rng):
         yield "flags", a
+    for seq in harness.hash_collision_cases(c, rng):
+        for a in seq:
+            yield "congruent", a
     for _ in range(shard["nrand"]):
         yield "rand", harness.random_args(c, rng)
     if c.xfer in ("alloc", "read", "write", "allocarg"):
@@ -154,11 +157,30 @@ def run(shard, ctx):
     rng = ctx.rng()
     transports = install.transport_factories()
     n = 0
+    others = [x for x in S.COMMANDS.values() if x.name != c.name]
     for setname in c.sets:
         for kind, a in gen_cases(c, rng, shard):
             n += 1
+            if n % 5 == 0:
+                # some other command is built in between: what this command encodes must not depend on it
+                o = rng.choice(others)
+                try:
+                    from vmon.spec import dataout as DO
+
+                    harness_construct_other(o, rng, DO)
+                    ctx.count("other_commands_built_in_between")
+                except Exception:  # noqa: BLE001
+                    pass
             do_tr = transports if (not shard["small"] or n % 7 == 0) else []
             run_one(ctx, c, setname, kind, a, True, do_tr)
+
+
+def harness_construct_other(o, rng, DO):
+    from vmon import harness
+
+    a = DO.GEN[o.custom](rng)[0] if o.custom else harness.random_args(o, rng, cap=2048)
+    cmd = harness.construct(o, o.sets[0], a)
+    type(cmd).unmarshall_cdb(cmd.cdb)
 
 
 def finalize(merged, tier):
